@@ -106,13 +106,10 @@ func (r *MMapReader) SeekNext(offset uint64) (uint64, []byte, error) {
 			trialOffset := uint64(next) + uint64(i)
 			record, err := r.ReadNextAt(trialOffset)
 			if err != nil {
-				if errors.Is(err, HeaderChecksumMismatchErr) || errors.Is(err, MagicNumberMismatchErr) || errors.Is(err, io.EOF) {
-					// try to seek again, the record couldn't be read fully
-					i = ix
-					continue
-				}
-
-				return 0, nil, err
+				// no complete record starts at this marker (it may be part of a payload), whatever the reason
+				// the trial read failed with: try to seek again
+				i = ix
+				continue
 			} else {
 				return trialOffset, record, nil
 			}
